@@ -288,7 +288,7 @@ func concurrencyPhase(f lib.Flags, r *lib.RNG, res *lib.Result) {
 
 func concurrencySmoke(r *lib.RNG, res *lib.Result) {
 	for _, b := range []Backend{memoryBackend(), pebble1Backend(false), pebble2Backend(false)} {
-		concurrentRun(b, r, 200, 3, 3*time.Second, res)
+		concurrentRun(b, r, 200, 3, 30*time.Second, res)
 	}
 }
 
